@@ -55,6 +55,21 @@ func runC17(c *Ctx) {
 			w := f.MustPrecede(a.m, nil, b.m)
 			c.Check(w == nil, "phase/"+a.name+"≺"+b.name, "shutdown phases run in order: "+a.name+" before "+b.name, c.P.Pos(sd.Decl.Pos()), f.describe(w))
 		}
+		// the passivation manager is stopped (and its goroutine joined) before anything is torn down: it deactivates
+		// grains and stops actors off their turn, so it must not run concurrently with the poison-pill phase
+		passStop := f.CallOnField(c.Field("actor", "actorSystem", "passivator"), "Stop")
+		if len(f.Find(passStop)) == 0 {
+			c.Undecided("phase/passivator-stopped-first", "passivator stop present", c.P.Pos(sd.Decl.Pos()), "x.passivator.Stop not found in shutdown")
+		} else {
+			wp := f.search(searchSpec{avoid: passStop, avoidEdges: f.NilCheckEdges(func(e ast.Expr) bool { return selField(info, e) == c.Field("actor", "actorSystem", "passivator") }, false), target: Or(named("poisonAllGrains"), named("getUserGuardian"))})
+			dfr := false
+			for _, a := range f.Find(passStop) {
+				if a.Deferred {
+					dfr = true
+				}
+			}
+			c.Check(wp == nil && !dfr, "phase/passivator-stopped-first", "the passivation manager is stopped before user actors are stopped and grains are poisoned (it is the barrier between an idle passivation in progress and the shutdown's own deactivation)", c.P.Pos(sd.Decl.Pos()), "passivator.Stop is deferred or does not precede the teardown: "+f.describe(wp))
+		}
 		// no user-guardian stop after the system actors were stopped
 		w := f.MayReach(f.Find(named("getSystemGuardian")), nil, named("getUserGuardian"))
 		c.Check(w == nil, "phase/no-user-stop-after-system", "user actors are not stopped after the system actors", c.P.Pos(sd.Decl.Pos()), f.describe(w))
